@@ -95,7 +95,7 @@ func C05_RecoverEnd() {
 	}
 	for _, a := range f.a {
 		genuine := verif.And(verif.And(a.hasRecoverTok, !v.Invalid), decodes(v.Token, a.recoverTok))
-		inTime := !ta.After(a.u.RecoverTokenExpiry)
+		inTime := ta.Before(a.u.RecoverTokenExpiry) // strictly inside the validity period (the expiry instant itself is left open by the statement)
 		tooLate := tb.After(a.u.RecoverTokenExpiry)
 		post := f.w.Store.Get(a.pid)
 		verif.Witness(verif.And(genuine, inTime), "genuine-recover-token-in-time")
